@@ -41,6 +41,9 @@ POOL_TEXT = {
     "span_amb": "S : A B # s (0 1) ; A : a # x1 | a a # x2 ; B : a # y1 | a a # y2",
     "nonstrict_dead": "S : a S # n (1) | b # 0 ; U : U a | c",
     "brackets": "S : S '(' S ')' # n (0 2) | # e",
+    "unit_ctx": "S : C z # sz (0) | B y # sy (0) | A x # sx (0) ; A : a # 0 ; B : A # 0 ; C : B # 0",
+    "unit_ctx_null": "S : C N z # sz (0) | B N y # sy (0) | A N x # sx (0) ; N : # e | n # 0 ; A : a # 0 ; B : A # 0 ; C : B # 0",
+    "ctx_nest": "S : Y b # sb (0) | X a # sa (0) | '(' S ')' # par (1) ; X : x # 0 ; Y : X # yx (0)",
     "opt_chain": "S : a O b # seq (0 1 2) ; O : L # 0 ; L : # nil | L x # cons (0 1)",
     "pass_eps": "S : A A # 1 ; A : a # 0 | # e",
     "pass_eps2": "S : B # 0 ; B : C D # 1 ; C : c # 0 | # ce ; D : d # dd (0) | # de",
@@ -113,6 +116,43 @@ def random_grammar(rng, max_nts=4, max_terms=3, max_rules=8, error_p=0.0, full_t
             anode, cost, transl = random_transl(rng, rhs)
         rules.append(Rule(lhs, rhs, anode, cost, transl))
     return Grammar([(t, ord(t)) for t in terms], rules)
+
+
+def context_chain_grammar(rng):
+    """Alternatives of the start symbol that differ only in their right context, reached through chains of unit
+    rules of different lengths (dynamic lookahead has to propagate contexts backwards through the chain), with
+    optional nullable tails and nesting."""
+    k = rng.randrange(2, 5)
+    tails = ["t%d" % i for i in range(k)]
+    terms = [("a", 97)] + [(t, 110 + i) for i, t in enumerate(tails)]
+    rules = []
+    order = list(range(k))
+    rng.shuffle(order)
+    nullable_tail = rng.random() < 0.4
+    for i in order:
+        rhs = ["U%d" % i] + (["N"] if nullable_tail else []) + [tails[i]]
+        rules.append(Rule("S", rhs, "s%d" % i, rng.randrange(3), [0]))
+    if rng.random() < 0.5:
+        terms += [("'('", 40), ("')'", 41)]
+        rules.append(Rule("S", ["'('", "S", "')'"], "par", 1, [1]))
+    if rng.random() < 0.3:
+        rules.append(Rule("S", ["S", "S"], "cat", 1, [0, 1]))
+    if nullable_tail:
+        terms.append(("n", 98))
+        rules.append(Rule("N", [], "e", 0, []))
+        rules.append(Rule("N", ["n"], None, 0, [0]))
+    chain = list(range(k))
+    rng.shuffle(chain)
+    # U_chain[0] : a ; U_chain[j] : U_chain[j-1]
+    defs = []
+    for j, i in enumerate(chain):
+        if j == 0 or rng.random() < 0.25:
+            defs.append(Rule("U%d" % i, ["a"], None, 0, [0]))
+        else:
+            defs.append(Rule("U%d" % i, ["U%d" % chain[j - 1]], "u" if rng.random() < 0.3 else None, 0, [0]))
+    rng.shuffle(defs)
+    # the start rule must come first
+    return Grammar(terms, rules[:1] + defs[: len(defs) // 2] + rules[1:] + defs[len(defs) // 2:])
 
 
 def accepted_random_grammar(rng, strict=None, tries=200, **kw):
